@@ -756,6 +756,15 @@ func (c *SpecCtx) call(x *SExpr) Value {
 		return scInt(res)
 	case "tsecs", "tnanos":
 		return scInt(e.timeFn(x.Name, c.eval(x.Args[0])))
+	case "typeof":
+		// typeof(x): the reflect.Type of the dynamic type of interface value x (nil for nil)
+		iv, ok := c.eval(x.Args[0]).(*Iface)
+		if !ok {
+			specFail("typeof needs an interface value")
+		}
+		e.declIface()
+		named := e.w.resolveType(c.pkg, "reflect.Type")
+		return &Iface{T: mkIte(mkEq(iv.T, "0"), "0", e.rtypeTerm(sx("dyntag", iv.T))), Typ: named}
 	case "visited":
 		// visited(n, k): k has been produced by the n-th range-over-map of the function
 		top := e.cur
